@@ -33,6 +33,8 @@ TNext ==
         \/ Ev.e = "Exit"     /\ Exit(Ev.fail)
         \/ Ev.e = "CloseInCall" /\ CloseInCall
         \/ Ev.e = "CloseInRet"  /\ CloseInRet
+        \/ Ev.e = "CloseOutCall" /\ CloseOutCall
+        \/ Ev.e = "CloseOutRet"  /\ CloseOutRet
         \/ Ev.e = "WaitAbortCall" /\ WaitAbortCall
         \* the client waited (3 s) for its context to be cancelled: only "aborted" can be explained
         \/ Ev.e = "WaitAbortRet"  /\ Ev.r = "aborted" /\ WaitAbortRet
